@@ -302,6 +302,41 @@ def run(chk):
 
     chk.oracle('generator_is_canonical', cases, o_gen_canon, key_fn=lambda c: c[0])
 
+    # ------------------------------------------------------------------ oracle: no state leaks between parse calls
+    # sequences on the SAME string: parse -> edit the result in place at every container level -> parse again;
+    # parse -> string-level editors on that string -> parse again; the earliest parses are re-issued at the end of the run
+    seq_strings = [t for t in corpus_strings if L.impl_parse(t)[:1] in 'AM'] + tests + \
+        [c[0] for c in cases[: (500 if quick else 6000)]] + ['PEP[Phospho]TIDE-[Amidated]', 'PEP[Phospho]TIDE+AC[Oxidation]K//[Acetyl]-MK']
+    first_dump = {}
+
+    def o_state(t):
+        d0 = L.dump_any(pt.parse(t))
+        first_dump.setdefault(t, d0)
+        if d0 != first_dump[t]:
+            return f'parse({t!r}) differs from the first parse of the same string in this run: {d0} vs {first_dump[t]}'
+        a = pt.parse(t)
+        L.mutate_in_place(a)
+        d1 = L.dump_any(pt.parse(t))
+        which = None
+        if d1 != d0:
+            which = 'editing the returned annotation in place'
+        else:
+            L.string_editors(pt, t)
+            d2 = L.dump_any(pt.parse(t))
+            if d2 != d0:
+                which = 'calling string-level functions (add_mods, condense_static_mods, reverse, mass, fragment, ...) on the string'
+                d1 = d2
+        if which is None:
+            b1, b2 = pt.parse(t), pt.parse(t)
+            if b1 is b2:
+                return f'parse({t!r}) returns the same object twice'
+            return None
+        ok, info = L.confirm_leak_fresh(t)
+        return (f'after {which}, parse({t!r}) = {d1} instead of {d0} (state leaks between parse calls); '
+                f'fresh interpreter: {"confirmed" if ok else "not reproduced: " + str(info)[:200]}')
+
+    chk.oracle('parse_is_stateless', seq_strings, o_state, nontrivial_fn=lambda t: any(ch in t for ch in '[{<('))
+
     # ------------------------------------------------------------------ oracle 3: a = serialize-side round trip on objects
     def o_obj_roundtrip(c):
         o, plus = c
@@ -321,6 +356,13 @@ def run(chk):
     chk.count('generated objects canonical', len(canon_objs))
     chk.oracle('object_roundtrip', [(o, p) for o in canon_objs for p in (False, True)], o_obj_roundtrip,
                key_fn=lambda c: L.dump_any(c[0]) + str(c[1]))
+
+    # the earliest parses of the run, re-issued after everything else has happened
+    def o_reissue(t):
+        d = L.dump_any(pt.parse(t))
+        return None if d == first_dump[t] else f'parse({t!r}) = {d} at the end of the run, {first_dump[t]} at its start'
+
+    chk.oracle('parse_reissued_at_end', list(first_dump)[:400], o_reissue)
 
     chk.rule = ('strings built from the grammar together with the object they denote (all modification kinds and spelling families, '
                 'vocabulary names/accessions with and without prefix, signed/unsigned numbers, Formula with isotope brackets, Glycan, Obs, '
